@@ -105,6 +105,8 @@ def run(ctx):
     # ---- the harness's copy of Bounded_Integer_Coefficient_Policy vs the source -------------------
     rc, cfg_out, _ = ctx.run([h, "--mode", "cfg"])
     cfg_lines = (cfg_out or "").splitlines()
+    repairs = {l.split()[2]: l.split()[3] == "1" for l in cfg_lines if l.startswith("cfg fix ")}
+    ctx.cov["repairs_detected_in_tree"] = repairs     # fixes/fix_c11_*.diff present? (the driver's model follows)
     bic = [l.split()[3:] for l in cfg_lines if l.startswith("cfg policy BIC ")]
     src_bic = source_policy_flags(os.path.join(REPO, "src", "Coefficient_types.hh"), "Bounded_Integer_Coefficient_Policy")
     if not bic or src_bic is None or bic[0] != src_bic:
